@@ -1,6 +1,6 @@
 """C02 — features behind a closed gate are inert.
 
-Differential: for a gate G, run the same world + turn script under (base config) and (base config + an arbitrary
+Differential: for a gate G, run the same world + step script under (base config) and (base config + an arbitrary
 validated subtree for G with G closed).  Everything the property names must be identical and no artefact of the gated
 feature may appear.
 """
@@ -16,18 +16,31 @@ from harness.runner import Sub, Violation, run_hypothesis, digest
 from harness import world, observe
 
 LEVEL = "exploration"
-RULE = ("Hypothesis-generated worlds (2 graphs, 4-10 episodes of 3 owners, GEL edges between episodes, 2 agents), "
-        "2-4 turn scripts, validated base configs (retrieval/propagation knobs, other features on or off) and, per gate "
-        "in {perf master, parallel (closed 3 ways), GEL, quality, hybrid, reflection, scheduler}, an arbitrary in-range "
-        "subtree with the gate closed. Non-trivial = the subtree differs from defaults in >=1 leaf AND the world gives "
-        "the gated code work (T1 pops>0 and T2 hits>0 in some turn; >=2 hits and >=1 GEL edge for GEL/hybrid; >=2 "
-        "graphs/episodes for parallel; non-empty utterance for reflection). Distinct = (gate, subtree, world, script).")
-ASSUMPTIONS = ["t3.jsonl / t3_plan.jsonl / t3_dialogue.jsonl carry raw timings even under CI=true: compared by record "
-               "count and by content with ms* fields masked",
+RULE = ("Hypothesis-generated worlds (2 graphs, 4-10 episodes of 3 owners, GEL edges between episodes, 2 agents, optionally an "
+        "on-disk embedding store the partition reader could use), 2-5 step scripts (single turns, repeated requests, equal / "
+        "sub-second / long clock steps, batches through the agent batch driver, process restarts that boot from the latest "
+        "snapshot), validated base configs (retrieval/propagation knobs, other features on or off, shadow traces, forced RAG) "
+        "and, per gate in {perf master, parallel (closed 3 ways), GEL, quality, hybrid, reflection, scheduler}, an arbitrary "
+        "subtree over EVERY leaf the validator admits below the gate (numbers / booleans also in the string and 0/1 "
+        "spellings the validator coerces; the closed flag spelled False/0/'false'/'off'/'no'/null), optionally together "
+        "with populated subtrees of other closed gates. Non-trivial = the subtree differs from defaults in >=1 leaf AND "
+        "the world gives the gated code work (T1 pops>0 and T2 hits>0 in some turn; >=2 hits and >=1 GEL edge for "
+        "GEL/hybrid; >=2 graphs/episodes for parallel; non-empty utterance for reflection). Distinct = (gate, subtree, "
+        "world, script).")
+ASSUMPTIONS = ["t3.jsonl / t3_plan.jsonl / t3_dialogue.jsonl / gel.jsonl carry raw timings even under CI=true: compared by "
+               "record count and by content with ms* fields masked",
+               "perf.parallel.* is part of the perf.* subtree: below a closed master switch it is drawn open as well as closed "
+               "(agent batch driver: repo fix 8643ca9; T1/T2 stage fan-out is output-identical and its metrics need perf.enabled)",
                "t2.quality.shadow (a perf feature designed to run while quality is off: needs perf.enabled && "
-               "perf.metrics.report_memory) is only set while the perf master switch is closed; the two reflection "
-               "budgets belong to the reflection gate, not the scheduler gate",
-               "snapshot sidecars (.meta) excluded (created_at only depends on SOURCE_DATE_EPOCH, which is fixed)"]
+               "perf.metrics.report_memory) is only set inside a closed subtree while the perf master switch is closed; the "
+               "two reflection budgets belong to the reflection gate, not the scheduler gate",
+               "snapshot sidecars (.meta) excluded (created_at only depends on SOURCE_DATE_EPOCH, which is fixed)",
+               "several closed gates populated at once must equal the run omitting all of them (chain of single-gate "
+               "differentials, each over a validated base configuration)",
+               "engine state = every key of the state dict: store / memory index / GEL graph deeply, JSON-like values by "
+               "content, the stage-cache slots by (kind, sizing tuple), other objects by type name",
+               "the agent batch driver is entered through orchestrator._run_agents_parallel_batch with a driver context "
+               "that carries no encoder (k_surface matches the episode vectors)"]
 
 GATES = ["perf", "parallel", "gel", "quality", "hybrid", "reflection", "scheduler"]
 
@@ -51,15 +64,18 @@ _B = st.booleans()
 _POSINT = st.sampled_from([1, 2, 3, 8, 100])
 _NN = st.sampled_from([0, 1, 2, 64, 100000])
 _U = st.sampled_from([0.0, 0.1, 0.5, 0.9, 1.0])
+# a closed gate flag in every spelling the validator's boolean coercion maps to False
+_OFF = st.sampled_from([False, False, False, False, False, False, 0, "false", "off", "no", "0", " False ", None])
 
 PERF_SUB = opt({
     "t1": opt({"queue_cap": _POSINT, "dedupe_window": _POSINT, "cache": opt({"max_entries": _NN, "max_bytes": _NN}),
                "caps": opt({"frontier": _POSINT, "visited": _POSINT})}),
-    "t2": opt({"embed_dtype": st.sampled_from(["fp32", "fp16"]), "embed_store_dtype": st.sampled_from(["fp32", "fp16"]),
+    "t2": opt({"embed_dtype": st.sampled_from(["fp32", "fp16", "FP16"]), "embed_store_dtype": st.sampled_from(["fp32", "fp16", "FP16"]),
                "precompute_norms": _B, "cache": opt({"max_entries": _NN, "max_bytes": _NN}),
                "reader": opt({"partitions": opt({"enabled": _B, "layout": st.sampled_from(["owner_quarter", "none"]),
-                                                 "path": st.sampled_from(["./parts", "x"]), "by": st.sampled_from([["owner"], ["owner", "quarter"]])})})}),
-    "snapshots": opt({"compression": st.sampled_from(["none", "zstd"]), "level": st.sampled_from([1, 3, 19]), "delta_mode": _B,
+                                                 "path": st.sampled_from(["./parts", "x", ".data/t2"]),
+                                                 "by": st.sampled_from([["owner"], ["owner", "quarter"], ["quarter"]])})})}),
+    "snapshots": opt({"compression": st.sampled_from(["none", "zstd", "ZSTD"]), "level": st.sampled_from([1, 3, 19]), "delta_mode": _B,
                       "every_n_turns": _POSINT}),
     "metrics": opt({"report_memory": _B}),
 })
@@ -75,22 +91,28 @@ GEL_SUB = opt({
                       "attach_weight": st.sampled_from([-1.0, 0.0, 0.5, 1.0]), "cap_per_turn": _NN}),
 })
 QUALITY_SUB = opt({
-    "trace_dir": st.sampled_from(["logs/quality", "qtrace"]), "redact": _B,
-    "normalizer": opt({"enabled": _B, "stemmer": st.sampled_from(["none", "porter-lite"]), "min_token_len": _POSINT}),
-    "aliasing": opt({"enabled": _B, "max_expansions_per_token": _NN}),
-    "lexical": opt({"bm25_k1": st.sampled_from([0.0, 1.2, 3.0]), "bm25_b": _U, "stopwords": st.sampled_from(["none", "en-basic"])}),
-    "fusion": opt({"enabled": _B, "mode": st.just("score_interp"), "alpha_semantic": _U}),
-    "mmr": opt({"enabled": _B, "lambda": _U, "k": _POSINT}),
+    # "<ROOT>" is replaced by the sandbox directory: an absolute trace directory outside logs/, snap/ and the cwd
+    "trace_dir": st.sampled_from(["logs/quality", "qtrace", "<ROOT>/qabs"]), "redact": _B,
+    "normalizer": opt({"enabled": _B, "stemmer": st.sampled_from(["none", "porter-lite"]), "min_token_len": _POSINT,
+                       "case": st.sampled_from(["lower", "LOWER"]), "unicode": st.sampled_from(["NFKC", "nfkc"]),
+                       "stopwords": st.sampled_from(["en-basic", "none"])}),
+    "aliasing": opt({"enabled": _B, "max_expansions_per_token": _NN, "map_path": st.sampled_from(["aliases.yaml", "missing.yaml"])}),
+    "lexical": opt({"enabled": _B, "bm25_k1": st.sampled_from([0.0, 1.2, 3.0]), "bm25_b": _U, "stopwords": st.sampled_from(["none", "en-basic"]),
+                    "bm25": opt({"k1": st.sampled_from([0.0, 1.2, 3.0]), "b": _U, "doclen_floor": _NN})}),
+    "fusion": opt({"enabled": _B, "mode": st.just("score_interp"), "alpha_semantic": _U, "score_norm": st.sampled_from(["zscore", "minmax"])}),
+    "mmr": opt({"enabled": _B, "lambda": _U, "lambda_relevance": _U, "k": _POSINT, "k_final": _POSINT, "diversity_by_owner": _B,
+                "diversity_by_token": _B}),
     "cache": opt({"salt": st.sampled_from(["", "s1"])}),
 })
 HYBRID_SUB = opt({"use_graph": _B, "anchor_top_m": _POSINT, "walk_hops": st.sampled_from([1, 2]), "edge_threshold": _U,
                   "lambda_graph": _U, "damping": _U, "degree_norm": st.sampled_from(["none", "invdeg"]),
                   "max_bonus": st.sampled_from([0.0, 0.5, 10.0]), "k_max": _POSINT})
-REFLECTION_SUB = opt({"backend": st.sampled_from(["rulebased", "llm"]), "summary_tokens": st.sampled_from([0, 1, 8, 128]), "embed": _B,
+REFLECTION_SUB = opt({"backend": st.sampled_from(["rulebased", "llm", "LLM"]), "summary_tokens": st.sampled_from([0, 1, 8, 128]), "embed": _B,
                       "log": _B, "topk_snippets": st.sampled_from([0, 1, 3])})
-REFL_BUDGETS = opt({"time_ms_reflection": st.sampled_from([1, 5, 6000]), "ops_reflection": st.sampled_from([0, 1, 5])})
+REFL_BUDGETS = opt({"time_ms_reflection": st.sampled_from([1, 5, 6000, None]), "ops_reflection": st.sampled_from([0, 1, 5, None])})
 SCHED_SUB = opt({"policy": st.sampled_from(["round_robin", "fair_queue"]), "quantum_ms": st.sampled_from([1, 20, 100000]),
-                 "budgets": opt({"t1_pops": _NN, "t1_iters": _NN, "t2_k": _NN, "t3_ops": _NN, "wall_ms": st.sampled_from([100000, 200000])}),
+                 "budgets": opt({"t1_pops": st.sampled_from([0, 1, 2, 64, None]), "t1_iters": _NN, "t2_k": _NN, "t3_ops": _NN,
+                                 "wall_ms": st.sampled_from([100000, 200000])}),
                  "fairness": opt({"max_consecutive_turns": _POSINT, "aging_ms": _NN})})
 
 
@@ -105,31 +127,59 @@ AGGRESSIVE = {
             "split": {"enabled": True, "weak_edge_thresh": 0.0, "cap_per_turn": 4},
             "promotion": {"enabled": True, "attach_weight": 1.0, "cap_per_turn": 4}},
     "quality": {"fusion": {"enabled": True, "alpha_semantic": 0.0}, "mmr": {"enabled": True, "lambda": 1.0, "k": 8},
-                "lexical": {"bm25_k1": 3.0, "stopwords": "none"}},
+                "lexical": {"bm25_k1": 3.0, "stopwords": "none"}, "aliasing": {"enabled": True, "map_path": "aliases.yaml"},
+                "normalizer": {"enabled": True, "stemmer": "porter-lite"}},
     "hybrid": {"use_graph": True, "anchor_top_m": 8, "walk_hops": 2, "edge_threshold": 0.0, "lambda_graph": 1.0, "damping": 1.0,
                "max_bonus": 10.0, "k_max": 100},
     "reflection": {"backend": "rulebased", "summary_tokens": 8, "embed": True, "log": True, "topk_snippets": 3},
     "scheduler": {"policy": "fair_queue", "quantum_ms": 1, "budgets": {"t1_pops": 0, "t1_iters": 0, "t2_k": 0, "t3_ops": 0, "wall_ms": 100000},
                   "fairness": {"max_consecutive_turns": 1, "aging_ms": 0}},
 }
+_SUB_STRATEGY = {"perf": PERF_SUB, "parallel": PARALLEL_SUB, "gel": GEL_SUB, "quality": QUALITY_SUB, "hybrid": HYBRID_SUB,
+                 "reflection": REFLECTION_SUB, "scheduler": SCHED_SUB}
+
+# base features that OPEN a gate (a populated closed subtree of that gate cannot be added next to them)
+_OPENERS = {"perf": ("perf_on", "trace_on"), "parallel": (), "gel": ("gel_on",), "quality": ("quality_on", "trace_on", "shadow_on"),
+            "hybrid": ("hybrid_on",), "reflection": ("reflection_on", "refl_top1", "refl_top2"),
+            "scheduler": ("sched_on", "slice_t2k", "slice_t2k2")}
+
+# (feature, probability in percent by default, {gate: probability})
+_FEATS = [
+    ("perf_on", 24, {"parallel": 50, "quality": 16}),  # metrics keys of a closed feature can only leak into records while the metrics gate is open
+    ("gel_on", 12, {"hybrid": 24}), ("hybrid_on", 12, {"gel": 24}), ("quality_on", 8, {}),
+    ("reflection_on", 12, {}), ("sched_on", 8, {}), ("t1cache_off", 8, {}), ("t2cache_off", 8, {}), ("t4cache_off", 8, {}),
+    ("snippet_template", 16, {}), ("shadow_on", 0, {"perf": 32}),
+    # what makes the ORDER of the retrieved hits observable (the dialogue / RAG / GEL layers re-sort hits by raw score; the
+    # residual nudges, the slice cap on hits used and the reflection snippets take them in T2's order)
+    # (both rerank layers keep the first hit in place: the caps of 2 are the sensitive ones there)
+    ("slice_t2k", 8, {}), ("slice_t2k2", 4, {"quality": 28, "hybrid": 28, "scheduler": 0}),
+    ("residual_cap1", 8, {"quality": 12, "hybrid": 12}), ("residual_cap2", 4, {"quality": 16, "hybrid": 16}),
+    ("refl_top1", 4, {"reflection": 0}), ("refl_top2", 4, {"quality": 36, "hybrid": 36, "reflection": 0}),
+    ("trace_on", 8, {"perf": 0, "quality": 0, "hybrid": 24, "gel": 16}), ("rag_always", 8, {}), ("t4_off", 4, {}),
+    ("reader_mode", 4, {"perf": 20}),
+]
 
 
 @st.composite
-def bases(draw):
+def bases(draw, gate=None):
     """Validated base overrides; never contains the subtree of the gate under test (removed later per gate)."""
     b = {"t1": {}, "t2": {}, "t3": {}, "t4": {}}
+    rerank = gate in ("quality", "hybrid")  # the rerank layers need >= 3 hits to have something to permute
     if draw(_B):
-        b["t2"]["k_retrieval"] = draw(st.sampled_from([1, 2, 3, 10]))
+        b["t2"]["k_retrieval"] = draw(st.sampled_from([3, 10, 10] if rerank else [1, 2, 3, 10]))
     if draw(_B):
-        b["t2"]["sim_threshold"] = draw(st.sampled_from([0.0, 0.3, 0.6]))
+        b["t2"]["sim_threshold"] = draw(st.sampled_from([0.0, 0.0, 0.3] if rerank else [0.0, 0.3, 0.6]))
     if draw(_B):
-        b["t2"]["owner_scope"] = draw(st.sampled_from(["any", "agent", "world"]))
+        b["t2"]["owner_scope"] = draw(st.sampled_from(["any", "any", "agent", "world"] if rerank else ["any", "agent", "world"]))
     if draw(_B):
         b["t1"]["radius_cap"] = draw(st.sampled_from([1, 2, 4]))
     if draw(_B):
         b["t1"]["queue_budget"] = draw(st.sampled_from([2, 5, 10000]))
-    feats = draw(st.sets(st.sampled_from(["perf_on", "gel_on", "hybrid_on", "quality_on", "reflection_on", "sched_on", "caches_off",
-                                          "snippet_template", "snippet_template", "slice_t2k", "shadow_on", "shadow_on"]), max_size=4))
+    feats = []
+    for name, p, per_gate in _FEATS:
+        p = per_gate.get(gate, p)
+        if p and _pct(draw) < p:
+            feats.append(name)
     return {"over": b, "feats": sorted(feats)}
 
 
@@ -148,94 +198,223 @@ def feature_overrides(feats, gate):
         # shadow tracing requested (quality off) on BOTH sides; it is a perf feature (perf.enabled && report_memory), so
         # with the perf master switch closed no trace may appear whatever perf.metrics says
         o = world.deep_merge(o, {"t2": {"quality": {"enabled": False, "shadow": True}}})
+    if "trace_on" in feats and gate not in ("perf", "quality") and "quality_on" not in feats:
+        # shadow traces legitimately written on BOTH sides (perf + metrics gate open, quality off): rq_traces.jsonl lists the
+        # whole ranking with scores, unredacted, so the retrieval order is observable byte for byte
+        o = world.deep_merge(o, {"perf": {"enabled": True, "metrics": {"report_memory": True}},
+                                 "t2": {"quality": {"enabled": False, "shadow": True, "redact": False}}})
     if "reflection_on" in feats and gate != "reflection":
         o = world.deep_merge(o, {"t3": {"allow_reflection": True}})
     if "sched_on" in feats and gate != "scheduler":
         o = world.deep_merge(o, {"scheduler": {"enabled": True, "quantum_ms": 10 ** 8, "budgets": {"wall_ms": 10 ** 9}}})
-    if "caches_off" in feats:
+    if "caches_off" in feats:  # older replay files
         o = world.deep_merge(o, {"t1": {"cache": {"enabled": False}}, "t2": {"cache": {"enabled": False}}, "t4": {"cache": {"enabled": False}}})
+    for f, sec in (("t1cache_off", "t1"), ("t2cache_off", "t2"), ("t4cache_off", "t4")):
+        if f in feats:
+            o = world.deep_merge(o, {sec: {"cache": {"enabled": False}}})
+    for f, cap in (("residual_cap1", 1), ("residual_cap2", 2)):
+        if f in feats:
+            # `cap` residual nudges per turn: they come from the first hits (in T2's order) whose text names a node label
+            o = world.deep_merge(o, {"t2": {"residual_cap_per_turn": cap}})
+    for f, k in (("refl_top1", 1), ("refl_top2", 2)):
+        if f in feats and gate != "reflection":
+            # reflection summarises the utterance plus the FIRST k retrieved snippets (T2's order) into a new memory episode
+            o = world.deep_merge(o, {"t3": {"allow_reflection": True, "reflection": {"topk_snippets": k}}})
     if "snippet_template" in feats:
-        # the utterance names the top retrieved episodes in order: retrieval ORDER becomes observable
+        # the utterance names the three best-scored retrieved episodes (re-sorted by raw score: set, not order, of the hits)
         o = world.deep_merge(o, {"t3": {"dialogue": {"template": "say {labels} | {snippets} | {intent}", "include_top_k_snippets": 3}}})
-    if "slice_t2k" in feats and gate != "scheduler" and "sched_on" not in feats:
-        # slice cap on hits used: the residual nudges (k_residual in t2.jsonl) depend on which hits come first
-        o = world.deep_merge(o, {"scheduler": {"enabled": True, "quantum_ms": 10 ** 8, "budgets": {"wall_ms": 10 ** 9, "t2_k": 1}}})
+    for f, k in (("slice_t2k", 1), ("slice_t2k2", 2)):
+        if f in feats and gate != "scheduler" and "sched_on" not in feats:
+            # slice cap on hits used: the residual nudges (k_residual in t2.jsonl, then T4/apply) depend on which hits come first
+            o = world.deep_merge(o, {"scheduler": {"enabled": True, "quantum_ms": 10 ** 8, "budgets": {"wall_ms": 10 ** 9, "t2_k": k}}})
+    if "rag_always" in feats:
+        # every plan asks for one retrieval refinement: a second T2 pass per turn, its hit ids land in the engine state
+        o = world.deep_merge(o, {"t3": {"policy": {"tau_high": 1.0, "tau_low": 1.0}}})
+    if "t4_off" in feats:
+        o = world.deep_merge(o, {"t4": {"enabled": False}})
+    if "reader_mode" in feats:
+        # reader mode asks for the partitioned fixture; outside the perf gate this is documented as "flat behaviour"
+        o = world.deep_merge(o, {"t2": {"reader": {"mode": "partition"}}})
     return o
+
+
+_HUNDRED = st.sampled_from(list(range(0, 100, 4)))  # uniform (st.integers favours small values): "_pct(draw) < p" holds with p %
+
+
+def _pct(draw):
+    return draw(_HUNDRED)
+
+
+def _respell(draw, tree, p=12):
+    """Numbers / booleans in the spellings the validator coerces ("4", "0.5", "true", 1): whatever validates must be inert."""
+    if isinstance(tree, dict):
+        return {k: _respell(draw, v, p) for k, v in tree.items()}
+    if isinstance(tree, bool):
+        if _pct(draw) < p:
+            return draw(st.sampled_from(["true", "on", "yes", 1, "1"] if tree else ["false", "off", "no", 0, "0"]))
+        return tree
+    if isinstance(tree, (int, float)):
+        if _pct(draw) < p:
+            return str(tree)
+        return tree
+    return tree
+
+
+def _closed_subtree(draw, gate, feats, aggressive, main):
+    """Override putting a populated subtree below `gate` with the gate closed."""
+    def _d(g=gate):
+        return copy.deepcopy(AGGRESSIVE[g]) if aggressive else draw(_SUB_STRATEGY[g])
+
+    if gate == "perf":
+        sub = {"perf": world.deep_merge(_respell(draw, _d()), {"enabled": draw(_OFF)})}
+        if draw(_B):
+            par = _respell(draw, draw(PARALLEL_SUB))
+            if draw(_B):
+                # perf.parallel.* lies below the master switch as well: an OPEN parallel subtree (agent batch driver, T1/T2
+                # stage fan-out) must stay without effect while perf.enabled is off
+                par.update({"enabled": draw(st.sampled_from([True, True, "true", 1])), "max_workers": draw(st.sampled_from([2, 4, 8, "4"])),
+                            "agents": draw(st.sampled_from([True, True, True, "on", False]))})
+            else:
+                par["enabled"] = draw(_OFF)
+            sub["perf"]["parallel"] = par
+    elif gate == "parallel":
+        way = draw(st.sampled_from(["enabled_false", "workers_le_1", "all_stage_gates_false"]))
+        p = _respell(draw, _d())
+        if way == "enabled_false":
+            p["enabled"] = draw(_OFF)
+        elif way == "workers_le_1":
+            p["enabled"] = draw(st.sampled_from([True, True, "true", 1]))
+            p["max_workers"] = draw(st.sampled_from([0, 1, 0, 1, -2, "1", "0", None]))
+        else:
+            p["enabled"] = draw(st.sampled_from([True, True, "on", 1]))
+            p.update({"t1": draw(_OFF), "t2": draw(_OFF), "agents": draw(_OFF)})
+        sub = {"perf": {"parallel": p}}
+    elif gate == "gel":
+        sub = {"graph": world.deep_merge(_respell(draw, _d()), {"enabled": draw(_OFF)})}
+    elif gate == "quality":
+        # shadow tracing also needs perf.enabled && perf.metrics.report_memory: only asked for while the base keeps perf off
+        perf_open = any(f in feats for f in _OPENERS["perf"])
+        shadow = (not perf_open) and draw(_B)
+        sub = {"t2": {"quality": world.deep_merge(_respell(draw, _d()), {"enabled": draw(_OFF), "shadow": shadow})}}
+        if shadow and draw(_B):
+            sub["t2"]["quality"]["trace_dir"] = draw(st.sampled_from(["logs/quality", "qtrace", "<ROOT>/qabs", "<ROOT>/qabs"]))
+        if shadow and main and draw(_B):
+            sub["perf"] = {"enabled": draw(_OFF), "metrics": {"report_memory": True}}  # second closed gate, populated as well
+    elif gate == "hybrid":
+        sub = {"t2": {"hybrid": world.deep_merge(_respell(draw, _d()), {"enabled": draw(_OFF)})}}
+    elif gate == "reflection":
+        sub = {"t3": {"allow_reflection": draw(_OFF), "reflection": _respell(draw, _d())}}
+        rb = draw(REFL_BUDGETS)
+        if rb:
+            sub["scheduler"] = {"budgets": rb}
+    elif gate == "scheduler":
+        sub = {"scheduler": world.deep_merge(_respell(draw, _d()), {"enabled": draw(_OFF)})}
+    else:  # pragma: no cover
+        raise ValueError(gate)
+    return sub
 
 
 @st.composite
 def cases(draw, gate=None):
     gate = gate or draw(st.sampled_from(GATES))
-    base = draw(bases())
-    if gate in ("quality", "hybrid") and draw(st.sampled_from([True, True, False])) and "snippet_template" not in base["feats"]:
-        # rerank layers only permute the hits: make the order observable (utterance lists the top snippets)
-        base["feats"] = sorted(base["feats"] + ["snippet_template"])
+    base = draw(bases(gate))
+    feats = base["feats"]
     # world
     eps = draw(world.episode_lists(max_eps=10, owners=["A", "B", "world"], allow_missing_ts=False,
-                                   ids=["e1", "e2", "e3", "e4", "e5", "e6", "e7", "e8", "e9", "e10"]))
+                                   ids=["e1", "e2", "e3", "e4", "e5", "e6", "e7", "e8", "e9", "e10"])
+               .filter(lambda l: len(l) >= (5 if gate in ("quality", "hybrid") else 0)))
+    for e in eps:
+        # the engine's own embedders (default query encoder, reflection summaries) are 32-dimensional: pad the bag-of-words
+        # vectors so that reflection-written episodes and the batch driver's default encoder live in the same space
+        if e.get("vec_full") is not None:
+            e["vec_full"] = list(e["vec_full"]) + [0.0] * (_DIM - len(e["vec_full"]))
     graphs = {"g1": draw(world.graph_specs(max_nodes=5, max_edges=6, ids=["a", "b", "c", "d", "e"])),
               "g2": draw(world.graph_specs(max_nodes=4, max_edges=4, ids=["a", "x", "y", "z"]))}
     gel = draw(world.gel_graphs([e["id"] for e in eps])) if draw(st.sampled_from([True, True, False])) else None
     words = [w for e in eps for w in (e.get("text") or "").lower().split()] or world.VOCAB[:4]
     glabels = [n["label"] for g in graphs.values() for n in g["nodes"] if n["label"]]
     n = draw(st.integers(2, 5))
+    # (Hypothesis repeats choices: the observed rates are about twice the nominal ones, see the evidence labels)
+    p_batch = {"parallel": 24, "perf": 20}.get(gate, 4)
+    p_restart = {"gel": 16, "perf": 8}.get(gate, 4)
     script = []
-    for _ in range(n):
+
+    def _text():
         text_words = draw(st.lists(st.sampled_from(words + world.VOCAB[:4]), min_size=1, max_size=3))
         if glabels:
             text_words.append(draw(st.sampled_from(glabels)))
-        step = {"agent": draw(st.sampled_from(["A", "B"])), "text": " ".join(text_words),
-                "adv_ms": draw(st.sampled_from([1000, 60000, 60000, 400000]))}
-        if script and draw(st.sampled_from([True, False])):
-            # repeat an earlier request verbatim: gives caches (and their TTLs / budgets) something to do
-            step = dict(draw(st.sampled_from(script)), adv_ms=step["adv_ms"])
-        script.append(step)
-    # gated subtree
-    sub = {}
-    aggressive = draw(_B)
+        return " ".join(text_words)
 
-    def _draw_sub(strategy):
-        return copy.deepcopy(AGGRESSIVE[gate]) if aggressive else draw(strategy)
-
-    if gate == "perf":
-        sub = {"perf": world.deep_merge(_draw_sub(PERF_SUB), {"enabled": False})}
-        if draw(_B):
-            sub["perf"]["parallel"] = world.deep_merge(draw(PARALLEL_SUB), {"enabled": False})
-    elif gate == "parallel":
-        way = draw(st.sampled_from(["enabled_false", "workers_le_1", "all_stage_gates_false"]))
-        p = _draw_sub(PARALLEL_SUB)
-        if way == "enabled_false":
-            p["enabled"] = False
-        elif way == "workers_le_1":
-            p["enabled"] = True
-            p["max_workers"] = draw(st.sampled_from([0, 1]))
+    for i in range(n):
+        adv = draw(st.sampled_from([1000, 60000, 60000, 400000, 0, 1]))  # 0: two turns at one logical instant; 1: sub-second
+        if _pct(draw) < p_batch:
+            # a batch handed to the agent batch driver (sequential loop while the agents gate is closed)
+            agents = draw(st.sampled_from([["A", "B"], ["B", "A"], ["A"], ["A", "A"]]))
+            step = {"batch": [[a, _text()] for a in agents], "adv_ms": adv}
         else:
-            p["enabled"] = True
-            p.update({"t1": False, "t2": False, "agents": False})
-        sub = {"perf": {"parallel": p}}
-    elif gate == "gel":
-        sub = {"graph": world.deep_merge(_draw_sub(GEL_SUB), {"enabled": False})}
-    elif gate == "quality":
-        # shadow tracing also needs perf.enabled && perf.metrics.report_memory: only asked for when the base keeps perf off
-        shadow = "perf_on" not in base["feats"] and draw(_B)
-        sub = {"t2": {"quality": world.deep_merge(_draw_sub(QUALITY_SUB), {"enabled": False, "shadow": shadow})}}
-        if shadow and draw(_B):
-            sub["perf"] = {"enabled": False, "metrics": {"report_memory": True}}  # second closed gate, populated as well
-    elif gate == "hybrid":
-        sub = {"t2": {"hybrid": world.deep_merge(_draw_sub(HYBRID_SUB), {"enabled": False})}}
-    elif gate == "reflection":
-        sub = {"t3": {"allow_reflection": False, "reflection": _draw_sub(REFLECTION_SUB)}}
-        rb = draw(REFL_BUDGETS)
-        if rb:
-            sub["scheduler"] = {"budgets": rb}
-    elif gate == "scheduler":
-        sub = {"scheduler": world.deep_merge(_draw_sub(SCHED_SUB), {"enabled": False})}
-    return {"gate": gate, "base": base, "sub": sub, "eps": eps, "graphs": graphs, "gel": gel, "script": script}
+            step = {"agent": draw(st.sampled_from(["A", "B"])), "text": _text(), "adv_ms": adv}
+            prev = [s_ for s_ in script if "batch" not in s_]
+            if prev and draw(st.sampled_from([True, False])):
+                # repeat an earlier request verbatim: gives caches (and their TTLs / budgets) something to do
+                step = {"agent": draw(st.sampled_from(prev))["agent"], "text": draw(st.sampled_from(prev))["text"], "adv_ms": adv}
+                if draw(_B):
+                    step = dict(draw(st.sampled_from(prev)), adv_ms=adv)
+                    step.pop("restart", None)
+        if i >= 1 and _pct(draw) < p_restart:
+            # process restart before this step: a fresh engine state boots from the latest snapshot in the directory
+            step["restart"] = True
+        script.append(step)
+    # on-disk embedding store (what the partition reader would serve from if the perf gate were ignored)
+    store = None
+    if eps and _pct(draw) < {"perf": 40}.get(gate, 4):
+        store = {"root": draw(st.sampled_from(["parts", ".data/t2"])), "layout": draw(st.sampled_from(["flat", "owner_quarter"])),
+                 "dtype": draw(st.sampled_from(["fp32", "fp16"])), "norms": draw(_B), "rot": draw(st.integers(1, 3))}
+    # gated subtree(s)
+    aggressive = draw(_B)
+    sub = _closed_subtree(draw, gate, feats, aggressive, True)
+    if gate == "perf" and store is not None and _pct(draw) < 75:
+        part = {"enabled": draw(st.sampled_from([True, True, "true", 1])), "layout": "owner_quarter" if store["layout"] == "owner_quarter" else "none"}
+        if store["root"] != ".data/t2" or draw(_B):
+            part["path"] = "./" + store["root"]
+        sub["perf"].setdefault("t2", {}).setdefault("reader", {})["partitions"] = part
+    extra = []
+    if _pct(draw) < 35:
+        closed_elsewhere = [g for g in GATES if g != gate and not any(f in feats for f in _OPENERS[g])
+                            and not (g == "parallel" and gate == "perf") and not (g == "perf" and gate in ("parallel", "quality"))]
+        for g in draw(st.lists(st.sampled_from(closed_elsewhere), max_size=2, unique=True)) if closed_elsewhere else []:
+            extra.append([g, _closed_subtree(draw, g, feats + (["quality_closed"] if gate == "quality" else []), draw(_B), False)])
+    case = {"gate": gate, "base": base, "sub": sub, "eps": eps, "graphs": graphs, "gel": gel, "script": script}
+    # how the planner asks for a reflection pass: flag stashed on the state (LLM policy path), Plan.reflection on the plan
+    # object (a planner installed through the orchestrator's t3_deliberate hook), or both
+    case["plan_channel"] = draw(st.sampled_from(["state", "state", "plan", "plan", "both"]))
+    if extra:
+        case["extra"] = extra
+    if store is not None:
+        case["store"] = store
+    return case
 
 
 # ---------------------------------------------------------------- running
 
 _MS_KEYS = ("ms", "ms_plan", "ms_rag", "ms_speak", "ms_deliberate", "now")
+_DEEP_KEYS = ("store", "mem_index", "memory_index", "graph", "version_etag", "active_graphs", "meta", "_chat_last_retrieved",
+              "_planner_reflection_flag")  # covered by observe.state_digest
+_AGENT_GRAPHS = {"A": ["g1"], "B": ["g1", "g2"]}
+_DIM = 32  # clematis' default k_surface and the dimension of the reflection embedder
+
+
+def _dim(case):
+    for e in case["eps"]:
+        if e.get("vec_full") is not None:
+            return len(e["vec_full"])
+    return _DIM
+
+
+def _encoder(case):
+    """Bag-of-words over VOCAB, zero-padded to the dimension of the episode vectors (older replay files: 12)."""
+    d = _dim(case)
+    return world.BowEncoder(world.VOCAB + [f"~pad{i}~" for i in range(max(0, d - len(world.VOCAB)))])
+_ALIASES = "apple: pear\nkiwi: fig plum\npea: nut\n"
 
 
 def _mask_t3(data: bytes) -> list:
@@ -251,45 +430,202 @@ def _mask_t3(data: bytes) -> list:
     return out
 
 
+def _safe_plain(v, depth=0):
+    """JSON-like values by content, anything else by type name (no object reprs: they carry addresses)."""
+    if v is None or isinstance(v, (bool, int, float, str)):
+        return v
+    if depth > 6:
+        return f"<{type(v).__name__}>"
+    if isinstance(v, dict):
+        return {str(k): _safe_plain(x, depth + 1) for k, x in sorted(v.items(), key=lambda kv: str(kv[0]))}
+    if isinstance(v, (list, tuple)):
+        return [_safe_plain(x, depth + 1) for x in v]
+    return f"<{type(v).__name__}>"
+
+
+def _state_rest(state: dict):
+    """Every key of the state dict that observe.state_digest does not look into."""
+    out = {"keys": sorted(str(k) for k in state.keys())}
+    for k in sorted(state.keys(), key=str):
+        if k in _DEEP_KEYS:
+            continue
+        v = state[k]
+        if k == "_stage_caches" and isinstance(v, dict):
+            slots = {}
+            for name in sorted(v.keys(), key=str):
+                slot = v[name]
+                if isinstance(slot, tuple) and len(slot) == 3:
+                    slots[str(name)] = [_safe_plain(slot[1]), _safe_plain(slot[2]), type(slot[0]).__name__]  # sizing tuple, kind, class
+                else:
+                    slots[str(name)] = _safe_plain(slot)
+            out[str(k)] = slots
+        elif k == "_cache_mgr":
+            out[str(k)] = [type(v).__name__, _safe_plain(getattr(v, "stats", None))]
+        else:
+            out[str(k)] = _safe_plain(v)
+    return out
+
+
+def _subst_root(obj, root):
+    if isinstance(obj, dict):
+        return {k: _subst_root(v, root) for k, v in obj.items()}
+    if isinstance(obj, list):
+        return [_subst_root(v, root) for v in obj]
+    if isinstance(obj, str) and "<ROOT>" in obj:
+        return obj.replace("<ROOT>", root)
+    return obj
+
+
+def _write_store(case, cwd):
+    """Embedding shards on disk (public writer of the engine): every episode id, but the vectors rotated between the
+    episodes, so a retrieval served from here is visibly different from the in-memory index."""
+    import numpy as np
+    from clematis.engine.util.embed_store import write_shard
+
+    spec = case["store"]
+    enc = _encoder(case)
+    ids = [str(e["id"]) for e in case["eps"]]
+    vecs = [enc.vec(e.get("text") or "") for e in case["eps"]]
+    rot = int(spec.get("rot", 1)) % max(1, len(vecs))
+    vecs = vecs[rot:] + vecs[:rot]
+    root = os.path.join(cwd, spec["root"])
+    if spec.get("layout") == "owner_quarter":
+        half = max(1, len(ids) // 2)
+        parts = [("A", "2025Q2", ids[:half], vecs[:half]), ("world", "2025Q1", ids[half:], vecs[half:])]
+        for owner, quarter, i_, v_ in parts:
+            if i_:
+                write_shard(os.path.join(root, owner, quarter, "s0"), i_, np.asarray(v_, dtype=np.float32), dtype=spec.get("dtype", "fp32"),
+                            precompute_norms=bool(spec.get("norms")))
+    else:
+        write_shard(root, ids, np.asarray(vecs, dtype=np.float32), dtype=spec.get("dtype", "fp32"), precompute_norms=bool(spec.get("norms")))
+
+
+def _tree(root: str):
+    """relative path -> bytes for every file below the sandbox directory."""
+    return observe.read_tree(root, ".")
+
+
+def _reflective_planner(ctx, state, bundle):
+    """Rule-based plan whose planner recommends a reflection pass (Plan.reflection=True)."""
+    import dataclasses
+    from clematis.engine.stages.t3 import deliberate
+
+    return dataclasses.replace(deliberate(bundle), reflection=True)
+
+
+def _fresh_state(w, channel="state"):
+    st_ = observe.build_state(w)
+    if channel in ("state", "both"):
+        st_["_planner_reflection_flag"] = True  # plan flag forced through the documented state channel
+    st_["graphs_by_agent"] = {a: list(g) for a, g in _AGENT_GRAPHS.items()}  # what the batch driver resolves agents' graphs from
+    return st_
+
+
 def run_script(case, overrides):
     """Returns the observation of running the script under `overrides`."""
+    import clematis.engine.orchestrator as orch
+
+    channel = case.get("plan_channel", "state")
+    hook = channel in ("plan", "both")
+    if hook:
+        orch.t3_deliberate = _reflective_planner  # the orchestrator's documented planner hook
+    try:
+        return _run_script(case, overrides, channel)
+    finally:
+        if hook:
+            for mod in (orch, orch._core):
+                if getattr(mod, "t3_deliberate", None) is _reflective_planner:
+                    delattr(mod, "t3_deliberate")
+
+
+def _run_script(case, overrides, channel):
     world.reset_engine_globals()
     with world.sandbox() as root:
-        eng = observe.Engine({"graphs": case["graphs"], "eps": case["eps"], "gel": case["gel"],
-                              "agents": {"A": ["g1"], "B": ["g1", "g2"]}}, root)
-        eng.state["_planner_reflection_flag"] = True  # plan flag forced through the documented channel
-        cfg = eng.cfg(overrides)
-        obs = {"lines": [], "digests": [], "exc": None, "work": {"t1": False, "t2": 0, "utter": False}}
+        w = {"graphs": case["graphs"], "eps": case["eps"], "gel": case["gel"], "agents": _AGENT_GRAPHS}
+        eng = observe.Engine(w, root, encoder=_encoder(case))
+        eng.state = _fresh_state(w, channel)
+        cwd = os.path.join(root, "cwd")
+        with open(os.path.join(cwd, "aliases.yaml"), "w", encoding="utf-8") as f:
+            f.write(_ALIASES)
+        if case.get("store"):
+            _write_store(case, cwd)
+        fixtures = sorted(p for p in _tree(root))
+        cfg = eng.cfg(_subst_root(overrides, root))
+        obs = {"lines": [], "digests": [], "rest": [], "exc": None, "work": {"t1": False, "t2": 0, "utter": False}}
         now = world.NOW_MS
         for i, st_ in enumerate(case["script"], 1):
             now += int(st_.get("adv_ms", 60000))
-            r = eng.turn(st_["agent"], st_["text"], cfg, i, now)
-            if r["exc"] is not None:
-                obs["exc"] = f"turn {i}: {r['exc']}"
-                break
-            obs["lines"].append(r["line"])
+            if st_.get("restart"):
+                eng.state = _fresh_state(w, channel)
+                eng.state["_boot_loaded"] = False  # the next turn boots from the latest snapshot, like a new process
+            if "batch" in st_:
+                lines, exc = _run_batch(eng, cfg, [tuple(t) for t in st_["batch"]], i, now)
+                if exc is not None:
+                    obs["exc"] = f"step {i} (batch): {exc}"
+                    break
+                obs["lines"].append(lines)
+                if any(lines):
+                    obs["work"]["utter"] = True
+            else:
+                r = eng.turn(st_["agent"], st_["text"], cfg, i, now)
+                if r["exc"] is not None:
+                    obs["exc"] = f"turn {i}: {r['exc']}"
+                    break
+                obs["lines"].append(r["line"])
+                if r.get("t1") and (r["t1"]["counters"].get("pops") or 0) > 0:
+                    obs["work"]["t1"] = True
+                if r.get("t2"):
+                    obs["work"]["t2"] = max(obs["work"]["t2"], len(r["t2"]["retrieved"]))
+                if r["line"]:
+                    obs["work"]["utter"] = True
             obs["digests"].append(observe.state_digest(eng.state))
-            if r.get("t1") and (r["t1"]["counters"].get("pops") or 0) > 0:
-                obs["work"]["t1"] = True
-            if r.get("t2"):
-                obs["work"]["t2"] = max(obs["work"]["t2"], len(r["t2"]["retrieved"]))
-            if r["line"]:
-                obs["work"]["utter"] = True
+            obs["rest"].append(_state_rest(eng.state))
         logs = eng.logs()
+        for ln in logs.get("t1.jsonl", b"").splitlines():
+            if (json.loads(ln).get("pops") or 0) > 0:
+                obs["work"]["t1"] = True
+        for ln in logs.get("t2.jsonl", b"").splitlines():
+            obs["work"]["t2"] = max(obs["work"]["t2"], int(json.loads(ln).get("k_returned") or 0))
         obs["canonical"] = observe.canonical(logs)
-        obs["t3"] = {k: _mask_t3(v) for k, v in logs.items() if k in observe.NONCANONICAL_TIMED and k != "gel.jsonl"}
+        obs["t3"] = {k: _mask_t3(v) for k, v in logs.items() if k in observe.NONCANONICAL_TIMED}
         obs["other_logs"] = {k: (observe.mask_scheduler(v) if k == "scheduler.jsonl" else v) for k, v in logs.items()
                              if k not in observe.CANONICAL and k not in observe.NONCANONICAL_TIMED}  # consumed.ms is wall time
         obs["snap_bodies"] = {k: v for k, v in eng.snaps().items() if not k.endswith(".meta")}
-        obs["listing"] = eng.listing()
+        tree = _tree(root)
+        obs["listing"] = sorted(tree)
+        obs["written"] = sorted(p for p in tree if p not in fixtures)
+        # everything outside the log and snapshot directories (working directory, absolute trace dirs): byte for byte
+        obs["elsewhere"] = {p: v for p, v in tree.items() if not p.startswith(("logs/", "snap/"))}
         obs["normalized_cfg"] = json.loads(json.dumps(cfg, default=repr))
         return obs
+
+
+def _run_batch(eng, cfg, tasks, turn_id, now_ms):
+    import clematis.engine.orchestrator as orch
+    import clematis.engine.util.io_logging as iol
+
+    ctx = world.make_ctx(cfg, agent="driver", turn_id=turn_id, now_ms=now_ms)
+    try:
+        res = orch._run_agents_parallel_batch(ctx, eng.state, list(tasks))
+        return [r.line for r in res], None
+    except Exception as e:  # the caller compares both sides
+        return None, f"{type(e).__name__}: {e}"
+    finally:
+        iol.disable_staging()
+
+
+def _all_subs(case):
+    return [(case["gate"], case["sub"])] + [(g, s_) for g, s_ in (case.get("extra") or [])]
 
 
 def check_case(case, rec=None):
     gate = case["gate"]
     base_over = world.deep_merge(case["base"]["over"], feature_overrides(case["base"]["feats"], gate))
-    with_over = world.deep_merge(base_over, case["sub"])
+    if any("batch" in s_ for s_ in case["script"]) and _dim(case) != _DIM:
+        base_over = world.deep_merge(base_over, {"k_surface": _dim(case)})  # the driver's contexts use the default encoder
+    with_over = base_over
+    for _, sub in _all_subs(case):
+        with_over = world.deep_merge(with_over, sub)
     from clematis.errors import ConfigError
     try:
         world.validated_cfg(copy.deepcopy(with_over))
@@ -304,6 +640,8 @@ def check_case(case, rec=None):
     if a["exc"] or b["exc"]:
         if a["exc"] != b["exc"]:
             raise Violation(f"gate {gate} closed: the run with the subtree raised {b['exc']!r}, without it {a['exc']!r}", case, f"{gate}:raises")
+        if rec is not None:
+            rec.label("both_raise")
         return  # both fail identically: not this property's business (C14 runnability)
     if a["lines"] != b["lines"]:
         raise Violation(f"gate {gate} closed: utterances differ {a['lines']} vs {b['lines']}", case, f"{gate}:utterance")
@@ -319,24 +657,35 @@ def check_case(case, rec=None):
     for i, (da, db) in enumerate(zip(a["digests"], b["digests"]), 1):
         if da != db:
             keys = [k for k in set(da) | set(db) if da.get(k) != db.get(k)]
-            raise Violation(f"gate {gate} closed: engine state after turn {i} differs in {keys}", case, f"{gate}:state")
+            raise Violation(f"gate {gate} closed: engine state after step {i} differs in {keys}", case, f"{gate}:state")
+    for i, (ra, rb) in enumerate(zip(a["rest"], b["rest"]), 1):
+        if ra != rb:
+            keys = sorted(k for k in set(ra) | set(rb) if ra.get(k) != rb.get(k))
+            raise Violation(f"gate {gate} closed: engine state after step {i} differs in {keys}: "
+                            f"{[ra.get(k) for k in keys][:2]} vs {[rb.get(k) for k in keys][:2]}", case, f"{gate}:state-keys")
     if a["listing"] != b["listing"]:
         raise Violation(f"gate {gate} closed: files written differ: only without {sorted(set(a['listing']) - set(b['listing']))}, "
                         f"only with {sorted(set(b['listing']) - set(a['listing']))}", case, f"{gate}:listing")
     if a["t3"] != b["t3"]:
-        raise Violation(f"gate {gate} closed: t3 streams differ (timings masked)", case, f"{gate}:t3")
+        k = sorted(k for k in set(a["t3"]) | set(b["t3"]) if a["t3"].get(k) != b["t3"].get(k))
+        raise Violation(f"gate {gate} closed: streams {k} differ (timings masked)", case, f"{gate}:t3")
     if a["other_logs"] != b["other_logs"]:
-        raise Violation(f"gate {gate} closed: non-canonical streams differ: {sorted(set(a['other_logs']) ^ set(b['other_logs']))}", case, f"{gate}:other-logs")
-    # no artefact of the gated feature anywhere
-    for pat in GATED_ARTEFACTS[gate]:
-        hits = [p for p in b["listing"] if pat in p.split("/", 1)[1]]
-        if hits:
-            raise Violation(f"gate {gate} closed but artefact(s) {hits} were written", case, f"{gate}:artefact")
+        raise Violation(f"gate {gate} closed: non-canonical streams differ: {sorted(k for k in set(a['other_logs']) | set(b['other_logs']) if a['other_logs'].get(k) != b['other_logs'].get(k))}", case, f"{gate}:other-logs")
+    if a["elsewhere"] != b["elsewhere"]:
+        k = sorted(k for k in set(a["elsewhere"]) | set(b["elsewhere"]) if a["elsewhere"].get(k) != b["elsewhere"].get(k))
+        raise Violation(f"gate {gate} closed: files outside the log/snapshot directories differ: {k}", case, f"{gate}:files")
+    # no artefact of a closed feature anywhere below the sandbox (log dir, snapshot dir, working directory, trace dirs)
+    for g, _ in _all_subs(case):
+        for pat in GATED_ARTEFACTS[g]:
+            hits = [p for p in b["written"] if pat in (p.split("/", 1)[1] if "/" in p else p)]
+            if g in ("perf", "quality") and any(f in case["base"]["feats"] for f in ("trace_on",)) and g != gate:
+                continue
+            if hits:
+                raise Violation(f"gate {g} closed but artefact(s) {hits} were written", case, f"{g}:artefact")
     # validator does not materialise blocks the user did not supply
-    if gate in ("perf", "parallel") and "perf_on" not in case["base"]["feats"]:
-        if "perf" in a["normalized_cfg"]:
-            raise Violation("validator materialised a perf block the user did not supply", case, "validator-materialises-perf")
-    if gate == "quality" and "quality" in (a["normalized_cfg"].get("t2") or {}):
+    if "perf" not in base_over and "perf" in a["normalized_cfg"]:
+        raise Violation("validator materialised a perf block the user did not supply", case, "validator-materialises-perf")
+    if "quality" not in (base_over.get("t2") or {}) and "quality" in (a["normalized_cfg"].get("t2") or {}):
         raise Violation("validator materialised a t2.quality block the user did not supply", case, "validator-materialises-quality")
 
     if rec is not None:
@@ -350,10 +699,79 @@ def check_case(case, rec=None):
         if gate == "reflection":
             work = work and w["utter"]
         nt = nondefault and work
-        rec.case(nontrivial=nt, dig=digest(case) if nt else None,
-                 labels=[f"gate={gate}"] + (["work"] if work else []) + (["nondefault"] if nondefault else []) + [f"feats={len(case['base']['feats'])}"],
+        labels = [f"gate={gate}"] + (["work"] if work else []) + (["nondefault"] if nondefault else []) + [f"feats={len(case['base']['feats'])}"]
+        labels += [f"feat:{f}" for f in case["base"]["feats"]]
+        labels += _dimension_labels(case)
+        rec.case(nontrivial=nt, dig=digest(case) if nt else None, labels=labels,
                  sample={"gate": gate, "sub": case["sub"], "feats": case["base"]["feats"], "script": case["script"],
                          "lines": a["lines"]} if nt else None)
+
+
+def _leaves(tree, prefix=""):
+    if isinstance(tree, dict):
+        for k, v in tree.items():
+            yield from _leaves(v, f"{prefix}.{k}" if prefix else str(k))
+    else:
+        yield prefix, tree
+
+
+def _dimension_labels(case):
+    """One label per generated dimension, so its frequency shows in the evidence histogram."""
+    out = []
+    script = case["script"]
+    if any("batch" in s_ for s_ in script):
+        out.append("step:batch")
+    if any(s_.get("restart") for s_ in script):
+        out.append("step:restart")
+    if any(s_.get("adv_ms") == 0 for s_ in script):
+        out.append("clock:equal")
+    if any(s_.get("adv_ms") == 1 for s_ in script):
+        out.append("clock:sub_second")
+    singles = [(s_["agent"], s_["text"]) for s_ in script if "batch" not in s_]
+    if len(set(singles)) < len(singles):
+        out.append("step:repeat")
+    if case.get("store"):
+        out.append(f"store:{case['store']['layout']}")
+    for g, _ in (case.get("extra") or []):
+        out.append(f"extra_closed:{g}")
+    out.append(f"plan_channel:{case.get('plan_channel', 'state')}")
+    spelled = flag = False
+    for path, v in _leaves(case["sub"]):
+        leaf = path.rsplit(".", 1)[-1]
+        if leaf in ("enabled", "allow_reflection") and not path.endswith(("merge.enabled", "split.enabled", "promotion.enabled", "partitions.enabled",
+                                                                           "normalizer.enabled", "aliasing.enabled", "lexical.enabled", "fusion.enabled", "mmr.enabled")):
+            if v is not False and v is not True:
+                flag = True
+        elif isinstance(v, str) and (v.lstrip("-").replace(".", "", 1).isdigit() or v in ("true", "on", "yes", "false", "off", "no")):
+            spelled = True
+    if flag:
+        out.append("flag:spelled")
+    if spelled:
+        out.append("leaf:spelled")
+    if case["gate"] == "parallel":
+        p = case["sub"]["perf"]["parallel"]
+        try:
+            mw = int(p.get("max_workers") or 0)
+        except Exception:
+            mw = 0
+        stage_open = any(p.get(k) in (True, "true", "on", "yes", 1, "1") for k in ("t1", "t2", "agents"))
+        en = p.get("enabled") in (True, "true", "on", "yes", 1, "1")
+        out.append("parallel:" + ("flag_off" if not en else "workers_le_1" if mw <= 1 else "stage_gates_off" if not stage_open else "?"))
+        if en and mw > 1 and "perf_on" in case["base"]["feats"]:
+            out.append("parallel:stage_gates_off+metrics")
+    if case["gate"] == "perf":
+        par = case["sub"]["perf"].get("parallel") or {}
+        if par.get("enabled") in (True, "true", "on", "yes", 1, "1"):
+            out.append("perf:parallel_open" + ("+batch" if any("batch" in s_ for s_ in script) and par.get("agents") in (True, "true", "on", "yes", 1, "1") else ""))
+        part = (((case["sub"]["perf"].get("t2") or {}).get("reader") or {}).get("partitions") or {})
+        if case.get("store") and part.get("enabled") in (True, "true", 1):
+            out.append("perf:reader_on_store")
+    q = ((case["sub"].get("t2") or {}).get("quality") or {})
+    if q.get("shadow"):
+        out.append("quality:shadow")
+    if str(q.get("trace_dir", "")).startswith("<ROOT>"):
+        out.append("quality:abs_trace_dir")
+    return out
 
 
 def _strip_gate_flag(sub, gate):
@@ -390,5 +808,5 @@ def replay_case(case):
 
 
 SUBCHECKS = [
-    Sub("gates", sub_gates, quick={"n": 260}, thorough={"n": 2000}, shards_quick=7, shards_thorough=14, replay=replay_case),
+    Sub("gates", sub_gates, quick={"n": 250}, thorough={"n": 1500}, shards_quick=7, shards_thorough=14, replay=replay_case),
 ]
